@@ -19,6 +19,9 @@ def run(repo, rep, tier):
         "(R11.4) Select.__getattr__ handles dunder names first and never uses plain attribute syntax on self. Fidelity of "
         "marshal-ed code objects and liveness of the clone are run-time questions and are not decided."
     )
+    rep.extra["explanation"] += " " + (
+        "Later additions to R11.2: reduce-tuple/parameter agreement; a rebuilt function gets a namespace of its own and the module's globals() are never written."
+    )
     rep.not_decided += ["fidelity of marshal-ed code objects, closures and globals", "equality/liveness of the clone (run time)"]
     cont = repo.cls("Container", "histogrammar.defs")
     fac = repo.cls("Factory", "histogrammar.defs")
